@@ -264,6 +264,8 @@ class Node(object):
         # Make a shallow copy and give it a new ID
         _copy = copy.copy(self)
         _copy._id = str(uuid.uuid1())
+        # The copy is a detached tree: it is not a child of the original's parent
+        _copy.parent = None
         Node.set_node_instance(_copy)
         # Construct the attributes dictionary so it's not just a reference to self's version
         _copy.attributes = {}
